@@ -127,10 +127,11 @@ func checkC12(c *hx.Ctx) {
 		perms[n] = permutations(n)
 	}
 	type cyc struct {
-		u    *Universe
-		ops  []*ref.Op // cycle ops in chain order (last closes the cycle)
-		k    int
-		kind string
+		u      *Universe
+		prefix []*ref.Op // legitimate operations before the cycle (in chain order)
+		ops    []*ref.Op // cycle ops in chain order (last closes the cycle)
+		k      int
+		kind   string
 	}
 	var cycles []cyc
 	cr := c.Rng("cycles")
@@ -140,54 +141,93 @@ func checkC12(c *hx.Ctx) {
 			types = ref.KeyTypes
 		}
 		for _, kind := range []string{"update", "recover"} {
-			for k := 1; k <= 5; k++ {
-				u := NewUniverse(cr.Split(fmt.Sprint(rep, kind, k)), ref.SHA256, p, types)
-				// fresh ring of k keys; ring[0] is the key committed by the create
-				ring := []*ref.Key{u.U[0]}
-				if kind == "recover" {
-					ring = []*ref.Key{u.R[0]}
-				}
-				for i := 1; i < k; i++ {
-					ring = append(ring, ref.NewKey(hx.Pick(cr, types), fmt.Sprintf("ring%d", i), cr.Bytes(32)))
-				}
-				u.Ops["C"] = u.MkCreate("C", ref.DeltaOK)
-				var ops []*ref.Op
-				for i := 0; i < k; i++ {
-					nxt := ring[(i+1)%k].Commitment(u.Code)
-					patches := []interface{}{patchAddServices(svcEntry(fmt.Sprintf("c%d", i), "cyc", fmt.Sprintf("https://cycle.example/%d", i)))}
-					lbl := fmt.Sprintf("%s:%d->%d", kind[:3], i, (i+1)%k)
-					if kind == "update" {
-						ops = append(ops, u.MkSigned(lbl, "update", ring[i], "", nxt, patches, SignedOpts{}))
-					} else {
-						uk := ref.NewKey("P-256", "uk", cr.Bytes(32))
-						ops = append(ops, u.MkSigned(lbl, "recover", ring[i], nxt, uk.Commitment(u.Code), patches, SignedOpts{}))
+			for pre := 0; pre <= 2; pre++ {
+				for k := 1; k <= 5; k++ {
+					if pre > 0 && k > 3 {
+						continue
 					}
+					u := NewUniverse(cr.Split(fmt.Sprint(rep, kind, k, pre)), ref.SHA256, p, types)
+					u.Ops["C"] = u.MkCreate("C", ref.DeltaOK)
+					start := u.U[0]
+					if kind == "recover" {
+						start = u.R[0]
+					}
+					newKey := func(n string) *ref.Key { return ref.NewKey(hx.Pick(cr, types), n, cr.Bytes(32)) }
+					mk := func(lbl string, from, to *ref.Key, i int) *ref.Op {
+						patches := []interface{}{patchAddServices(svcEntry(fmt.Sprintf("c%s%d", lbl[:1], i), "cyc", fmt.Sprintf("https://cycle.example/%d", i)))}
+						if kind == "update" {
+							return u.MkSigned(lbl, "update", from, "", to.Commitment(u.Code), patches, SignedOpts{})
+						}
+						return u.MkSigned(lbl, "recover", from, to.Commitment(u.Code), newKey("uk").Commitment(u.Code), patches, SignedOpts{})
+					}
+					// legitimate prefix: start -> p1 -> p2 ...
+					var prefix []*ref.Op
+					cur := start
+					for i := 0; i < pre; i++ {
+						nk := newKey(fmt.Sprintf("pre%d", i))
+						prefix = append(prefix, mk(fmt.Sprintf("pre:%d", i), cur, nk, 100+i))
+						cur = nk
+					}
+					// ring of k keys starting at the key in force after the prefix
+					ring := []*ref.Key{cur}
+					for i := 1; i < k; i++ {
+						ring = append(ring, newKey(fmt.Sprintf("ring%d", i)))
+					}
+					var ops []*ref.Op
+					for i := 0; i < k; i++ {
+						ops = append(ops, mk(fmt.Sprintf("%s:%d->%d", kind[:3], i, (i+1)%k), ring[i], ring[(i+1)%k], i))
+					}
+					// a cycle may also close on a key of the prefix (a middle commitment of the chain)
+					if pre > 0 && kind == "update" {
+						ops = append(ops, u.MkSigned("upd:back-to-start", "update", ring[k-1], "", start.Commitment(u.Code), nil, SignedOpts{DeltaStatus: ref.DeltaFails}))
+					}
+					cycles = append(cycles, cyc{u, prefix, ops, k, kind})
 				}
-				cycles = append(cycles, cyc{u, ops, k, kind})
 			}
 		}
 	}
 	for _, cy := range cycles {
 		cy := cy
-		// every rotation start is covered by the fact that the chain starts at ring[0]; every anchoring order of the k ops
-		orders := perms[cy.k]
+		orders := perms[len(cy.ops)]
+		if len(cy.ops) > 5 {
+			orders = perms[5]
+		}
 		hx.Parallel(len(orders), 16, func(oi int) {
 			ord := orders[oi]
-			// twice: once plain, once with each op replayed a second time later
-			for variant := 0; variant < 2; variant++ {
+			// variants: 0 plain; 1 every op replayed later; 2/3 the last one / two operations of the anchoring order are unpublished
+			for variant := 0; variant < 4; variant++ {
+				if c.Violations() > 8 {
+					return
+				}
+				if variant >= 2 && cy.kind == "recover" {
+					continue // unpublished full operations followed by published updates are outside the statements (Appendix B)
+				}
 				H := []*ref.Op{Place(cy.u.Ops["C"], 1000, 9, "refC", p.GenesisTime)}
+				for i, o := range cy.prefix {
+					H = append(H, Place(o, uint64(1002+2*i), 1, fmt.Sprintf("pre%d", i), p.GenesisTime))
+				}
 				for pos, idx := range ord {
-					H = append(H, Place(cy.ops[idx], uint64(1010+10*pos), uint64(cy.k-pos), fmt.Sprintf("ref%d", pos), p.GenesisTime))
+					if idx >= len(cy.ops) {
+						continue
+					}
+					refID := fmt.Sprintf("ref%d", pos)
+					t := uint64(1010 + 10*pos)
+					if variant >= 2 && pos >= len(ord)-(variant-1) {
+						refID, t = "", uint64(5000+pos) // unpublished
+					}
+					H = append(H, Place(cy.ops[idx], t, uint64(len(ord)-pos), refID, p.GenesisTime))
 				}
 				if variant == 1 {
 					for pos, idx := range ord {
-						H = append(H, Place(cy.ops[idx], uint64(1100+10*pos), uint64(pos), fmt.Sprintf("rep%d", pos), p.GenesisTime))
+						if idx < len(cy.ops) {
+							H = append(H, Place(cy.ops[idx], uint64(1100+10*pos), uint64(pos), fmt.Sprintf("rep%d", pos), p.GenesisTime))
+						}
 					}
 				}
 				c.Eval()
 				st, merr := ref.Resolve(H, ref.ResolveOpts{})
 				rm, err, ta, exceeded := tracedResolve(p, cy.u.Suffix, H, nil)
-				replay := map[string]interface{}{"suffix": cy.u.Suffix, "history": replayOps(H), "cycle_length": cy.k, "chain": cy.kind}
+				replay := map[string]interface{}{"suffix": cy.u.Suffix, "history": replayOps(H), "cycle_length": cy.k, "chain": cy.kind, "prefix": len(cy.prefix)}
 				if exceeded {
 					c.Violation("C12 step budget exceeded on a cyclic history (commitment revisited / non-termination): "+histString(H), replay)
 					return
@@ -202,18 +242,26 @@ func checkC12(c *hx.Ctx) {
 					c.Violation(fmt.Sprintf("C12 cyclic history resolves differently from the reference model: [%s]\n   model:   %s\n   library: %s", histString(H), want, got), replay)
 					return
 				}
-				// the op closing the cycle must never be applied: at most k-1 of the cycle ops (k=1: none)
-				if merr == nil && len(st.Applied)-1 > cy.k-1 && cy.k > 0 {
+				// the op closing the cycle must never be applied: at most k-1 of the cycle ops (k=1: none) on top of the prefix
+				if merr == nil && len(st.Applied)-1-len(cy.prefix) > cy.k-1 {
 					c.Violation("C12 reference model applied a full cycle (model defect)", replay)
 					return
 				}
 				c.Count(fmt.Sprintf("cycle_len_%d_%s", cy.k, cy.kind))
+				if len(cy.prefix) > 0 {
+					c.Count("cycles_after_a_legitimate_prefix")
+				}
+				if variant >= 2 {
+					c.Count("cycles_closed_by_unpublished_operations")
+				}
 				c.CountN("applied_cycle_ops", len(st.Applied)-1)
 				c.Distinct(histString(H))
 			}
 		})
-		c.Sample(6, map[string]interface{}{"cycle": labelsOf(cy.ops), "length": cy.k, "orders": len(orders)})
+		c.Sample(6, map[string]interface{}{"cycle": labelsOf(cy.ops), "prefix": labelsOf(cy.prefix), "length": cy.k, "orders": len(orders)})
 	}
+	c.Floor("cycles_after_a_legitimate_prefix", 50)
+	c.Floor("cycles_closed_by_unpublished_operations", 50)
 	c.Floor("self_commit_rejected:update", 16)
 	c.Floor("self_commit_rejected:recover", 16)
 	c.Floor("other_commit_accepted:update", 16)
